@@ -28,8 +28,10 @@
 import SoupVerif.Lemmas.SatMain
 import SoupVerif.Lemmas.SatAll
 import SoupVerif.Lemmas.SatRoot
+import SoupVerif.Lemmas.SatRootCond
 import SoupVerif.Properties.C01Attr
 import SoupVerif.Properties.C01
+import SoupVerif.Spec.CssHas
 namespace SoupVerif
 namespace C01Sat
 open Css SatTree SatCore SatLeaf SatMain SatRoot
@@ -162,6 +164,30 @@ theorem select_exact (c : Ctx) (hifr : c.iframeRestrict = false) (L : List Compl
   have hel : isElem d = true := rightOf_isElem .desc tag d hd
   have hT : d.top = tag.top := (closed_top tag.top).rightOf .desc tag d rfl hd
   exact matchEl_eq c hifr L hwf hfold tag.top hroot d hel hT
+
+/-- **The API entry point** `SoupSieve.select(tag, limit)` (`Model/Api.lean`), which builds its own
+    matcher context with `CSSMatch.__init__` (`mkCtx`): exactly the designated elements. -/
+theorem api_select_exact (E : Env) (isXml : Bool) (ns : List (Str × Str)) (L : List Complex)
+    (hwf : ∀ x ∈ L, x.wf = true) (tag : Loc)
+    (hfold : (∀ x ∈ L, x.caseSensitiveIn (mkCtx E isXml ns tag) = true) ∨ E.env.fold = lowerCp)
+    (hroot : (∀ x ∈ L, x.noRoot = true) ∨ RootAgrees (mkCtx E isXml ns tag) tag.top)
+    (limit : Int) (hlim : limit < 1) :
+    select E isXml ns (compileList L) tag limit = selectSpec (mkCtx E isXml ns tag) L tag :=
+  select_exact (mkCtx E isXml ns tag) rfl L hwf hfold tag hroot limit hlim
+
+/-- The same with the `:root` hypothesis spelled out as conditions on the tree
+    (`SatRootCond.rootAgrees_of_conditions`). -/
+theorem api_select_exact' (E : Env) (isXml : Bool) (ns : List (Str × Str)) (L : List Complex)
+    (hwf : ∀ x ∈ L, x.wf = true) (hfold : E.env.fold = lowerCp) (tag : Loc)
+    (hdoc : ∀ n : Loc, n.top = tag.top → n.isDoc = true → n.up = [])
+    (hifr : ∀ l p : Loc, l.top = tag.top → l.parent? = some p →
+      ((mkCtx E isXml ns tag).isHtml && (mkCtx E isXml ns tag).locIsIframe p) = false)
+    (hone : tag.top.isDoc = true →
+      (tag.top.children.filter (fun s => blocksRoot s.focus)).length ≤ 1)
+    (limit : Int) (hlim : limit < 1) :
+    select E isXml ns (compileList L) tag limit = selectSpec (mkCtx E isXml ns tag) L tag :=
+  api_select_exact E isXml ns L hwf tag (Or.inr hfold)
+    (Or.inr (SatRootCond.rootAgrees_of_conditions E isXml ns tag hdoc hifr hone)) limit hlim
 
 /-- Membership form: "no more and no fewer". -/
 theorem mem_select_iff (c : Ctx) (hifr : c.iframeRestrict = false) (L : List Complex)
@@ -329,6 +355,24 @@ example : selectIn ctx (compileList [x2]) top 0 = selectSpec ctx [x2] top :=
   select_exact ctx rfl [x2] (by decide) (Or.inr rfl) top (Or.inr rootAgrees_example) 0 (by decide)
 example : selectIn ctx (compileList x3) top 0 = selectSpec ctx x3 top :=
   select_exact ctx rfl x3 (by decide) (Or.inr rfl) top (Or.inl (by decide)) 0 (by decide)
+
+/-- The forward form of `:has` used by the specification against its declarative reading
+    (`Spec/CssHas.lean`), at every element of the tree, for several relative selectors. -/
+def rels : List RelSel :=
+  [.mk .child (.comb (.one (.mk (ty "a") [])) .adj (.mk (ty "b") [])),
+   .mk .desc (.one (.mk (ty "b") [.lastChild])),
+   .mk .desc (.comb (.one (.mk (ty "div") [])) .child (.mk (ty "a") [])),
+   .mk .sib (.comb (.one (.mk (ty "div") [])) .desc (.mk none [.firstChild])),
+   .mk .adj (.one (.mk (ty "p") [])),
+   .mk .adj (.comb (.comb (.one (.mk (ty "p") [])) .sib (.mk (ty "div") [])) .child (.mk (ty "b") [.firstOfType])),
+   .mk .child (.one (.mk none [.has [.mk .child (.one (.mk (ty "b") []))]]))]
+
+example : ((treeNodes top).filter (fun l => isElem l && !l.isDoc)).all (fun l =>
+    rels.all (fun r => satRel ctx l r == satRelDeclarative ctx l r)) = true := by decide
+example : (rels.map fun r =>
+      ((treeNodes top).filter (fun l => isElem l && !l.isDoc && satRel ctx l r)).map Loc.pos) =
+    [[[1, 1]], [[1], [1, 1]], [[1]], [[1, 1], [1, 2]], [[1, 1]], [[1, 1]], [[1]]] := by
+  decide
 
 /-- Where the `:root` hypothesis bites: two elements below the document object (a fragment parsed
     by `html.parser`).  CSS: both have no parent element; the matcher: neither is `:root`. -/
